@@ -1,30 +1,19 @@
 (* C04 — Durability: late TRANSIENT_LOCAL readers get history, VOLATILE readers do not.
    Model: Proto/RelModel.v.  AMatch rel tl = the data reader (RELIABLE iff rel, TRANSIENT_LOCAL iff tl)
    is created and discovery completes: add_matched_reader computes the proxy's first relevant sample. *)
-From DustDDS Require Import Base.Machine Proto.RelModel Proto.RelProofs Proto.RelLive Proto.RelWitness.
+From DustDDS Require Import Base.Machine Proto.RelModel Proto.RelProofs Proto.RelSoundG Proto.RelLive Proto.RelWitness.
 Open Scope Z_scope.
 
-(* A RELIABLE VOLATILE reader never presents a sample that was written before it was matched: for
-   every schedule before the match and every schedule after it (all faults, all history QoS). *)
-Theorem C04_volatile_no_history_reliable :
-  forall cf before after,
+(* A VOLATILE reader - RELIABLE or BEST_EFFORT - never presents a sample that was written before it was
+   matched: for every schedule before the match and every schedule after it (all faults, all history QoS).
+   (The BEST_EFFORT half is former finding C04-volatile-besteffort-history, repaired by 0faf897.) *)
+Theorem C04_volatile_no_history :
+  forall cf rel before after,
     let s1 := run cf init before in
-    s_rd s1 = None -> s_rp s1 = None -> s_rdead s1 = false -> w_rel cf = true ->
-    let s := run cf init (before ++ AMatch true false :: after) in
-    forall c, In c (s_log s1) -> ~ In c (presented s).
-Proof. exact volatile_no_history_reliable. Qed.
-
-(* The same statement for every reliability kind is FALSE on the faithful model (known finding
-   C04-volatile-besteffort-history): write_message_best_effort does not look at
-   first_relevant_sample_seq_num, a BEST_EFFORT VOLATILE late joiner is sent the retained history. *)
-Definition C04_volatile_no_history_statement : Prop :=
-  forall cf before rel after,
-    let s1 := run cf init before in
-    s_rd s1 = None -> s_rp s1 = None ->
+    s_rd s1 = None -> s_rp s1 = None -> s_rdead s1 = false -> rxo_ok cf rel false = true ->
     let s := run cf init (before ++ AMatch rel false :: after) in
     forall c, In c (s_log s1) -> ~ In c (presented s).
-Theorem C04_volatile_no_history_refuted_best_effort : ~ C04_volatile_no_history_statement.
-Proof. exact volatile_no_history_full_refuted. Qed.
+Proof. exact volatile_no_history. Qed.
 
 (* The boundary "written just before / just after matching": the new proxy's first relevant sample is
    0 for a TRANSIENT_LOCAL reader and the highest held sequence number for a VOLATILE one; every
@@ -44,15 +33,20 @@ Theorem C04_match_boundary :
       (forall after c, In c (s_log (run cf s2 after)) -> ~ In c (s_log s1) -> s_last s1 < c_sn c).
 Proof. exact match_boundary. Qed.
 
-(* HISTORY at full strength — after the healing rounds a reliable TRANSIENT_LOCAL late joiner has been
-   given everything the writer retains — is the liveness statement of C01 and is FALSE for a retained
-   history with holes (known finding C04-gap-skip-history, same witness): history {1,3}, DATA(1) lost:
-   sample 1 is never delivered and wait_for_historical_data completes nevertheless *)
-Definition C04_transient_local_history_statement : Prop :=
-  forall cf sched k, (rounds_needed sched <= k)%nat -> delivered (run cf init (sched ++ heal k)).
-Theorem C04_transient_local_history_refuted_gap_skip : ~ C04_transient_local_history_statement.
-Proof. exact reliable_liveness_full_refuted. Qed.
-(* HISTORY, the proved part (stage 1): KEEP_ALL writer, unfragmented samples, no removal, no deletion, at
+(* HISTORY is never skipped, unbounded, every history QoS (retained histories with holes included): when the
+   test of wait_for_historical_data succeeds for a RELIABLE reader (a HEARTBEAT was received and nothing it
+   announced is missing), every retained relevant change up to the announced last sequence number has been
+   presented.  (Former finding C04-gap-skip-history, repaired by 91937ff.) *)
+Theorem C04_wait_for_historical_data_sound :
+  forall cf sched,
+    let s := run cf init sched in
+    forall p r w, s_rp s = Some p -> rp_rel p = true -> s_rd s = Some r -> rd_wp r = Some w ->
+      hist_received (rd_wp r) = true ->
+      forall c, In c (s_changes s) -> rp_fr p < c_sn c -> c_sn c <= wp_la w -> In c (rd_pres r).
+Proof. exact wfh_sound. Qed.
+
+(* HISTORY is eventually complete, the proved part (stage 1; histories with holes are exercised by the
+   scenarios of the check and the examples below): KEEP_ALL writer, unfragmented samples, no removal, no deletion, at
    most 256 samples: after any such schedule (lossy catch-up included) and k + 1 healing rounds, when nothing
    is queued any more, a RELIABLE TRANSIENT_LOCAL reader - late or not - has been given EVERY change the
    writer retains *)
@@ -65,17 +59,25 @@ Theorem C04_transient_local_history_partial :
       forall c, In c (s_changes s) -> In c (rd_pres r).
 Proof. exact transient_local_history_unfragmented. Qed.
 
-Theorem C04_gap_skip_witness :
-  let s := run cf_gap init sched_gap in
-  s_changes s = [mkCh 1 1 24 11; mkCh 3 2 24 33] /\ presented s = [mkCh 3 2 24 33] /\ s_net s = [] /\
-  is_acked (s_rp s) (s_last s) = true /\ snd (step cf_gap s AWfhPoll) = OPoll [0].
-Proof. exact gap_skip_witness. Qed.
+(* the schedule that exposed the GAP skip, on the repaired code: retained history {1,3} (KEEP_LAST(1), two
+   instances), DATA(1) lost: wait_for_historical_data stays pending until 1 and 3 have been presented *)
+Theorem C04_gap_skip_repaired :
+  let s0 := run cf_gap init sched_gap in
+  let s := run cf_gap s0 (heal 1) in
+  s_changes s0 = [mkCh 1 1 24 11; mkCh 3 2 24 33] /\
+  presented s0 = [] /\ ackd s0 = false /\
+  snd (step cf_gap s0 AWfhPoll) = OPoll [1] /\ snd (step cf_gap s0 AWfaPoll) = OPoll [1] /\
+  presented s = [mkCh 1 1 24 11; mkCh 3 2 24 33] /\
+  s_net s = [] /\ ackd s = true /\
+  snd (step cf_gap s AWfhPoll) = OPoll [0] /\ snd (step cf_gap s AWfaPoll) = OPoll [0].
+Proof. exact gap_skip_repaired. Qed.
 
-Theorem C04_volatile_best_effort_witness :
+(* the schedule that exposed C04-volatile-besteffort-history, on the repaired code *)
+Theorem C04_volatile_best_effort_repaired :
   let before := [AWrite 1 24 11; AWrite 1 24 22] in
-  let s := run cf_plain init (before ++ [AMatch false false; APump]) in
-  presented s = s_log (run cf_plain init before) /\ presented s = [mkCh 1 1 24 11; mkCh 2 1 24 22].
-Proof. exact volatile_best_effort_witness. Qed.
+  let s := run cf_plain init (before ++ [AMatch false false; APump; AWrite 1 24 33; APump]) in
+  s_changes s = [mkCh 1 1 24 11; mkCh 2 1 24 22; mkCh 3 1 24 33] /\ presented s = [mkCh 3 1 24 33] /\ s_net s = [].
+Proof. exact volatile_best_effort_repaired. Qed.
 
 (* non-vacuity: KEEP_LAST(2), one instance: a late TRANSIENT_LOCAL reader gets the two retained samples
    despite a lost DATA, and wait_for_historical_data completes *)
@@ -86,10 +88,9 @@ Example C04_nonvacuous_history :
   snd (step (mkCfg 1344 true true 2) s AWfhPoll) = OPoll [0].
 Proof. exact heal_example_history. Qed.
 
-Print Assumptions C04_volatile_no_history_reliable.
-Print Assumptions C04_volatile_no_history_refuted_best_effort.
+Print Assumptions C04_volatile_no_history.
 Print Assumptions C04_match_boundary.
-Print Assumptions C04_transient_local_history_refuted_gap_skip.
+Print Assumptions C04_wait_for_historical_data_sound.
 Print Assumptions C04_transient_local_history_partial.
-Print Assumptions C04_gap_skip_witness.
-Print Assumptions C04_volatile_best_effort_witness.
+Print Assumptions C04_gap_skip_repaired.
+Print Assumptions C04_volatile_best_effort_repaired.
